@@ -354,11 +354,131 @@ func reqOracle(c *Ctx, op string, a map[string]string, flat []byte, got [][]byte
 	}
 }
 
+// sealedDecompressor: the payload followed by one checksum byte (xor of the payload); like
+// formats with a trailer (CRC footers), corruption is only known - and reported - at Close.
+type sealedDecompressor struct {
+	data []byte
+	pos  int
+	bad  bool
+}
+
+func (d *sealedDecompressor) Read(p []byte) (int, error) {
+	if d.pos >= len(d.data) {
+		return 0, io.EOF
+	}
+	n := copy(p, d.data[d.pos:])
+	d.pos += n
+	return n, nil
+}
+func (d *sealedDecompressor) Close() error {
+	if d.bad {
+		return errors.New("sealed: checksum mismatch")
+	}
+	return nil
+}
+func (d *sealedDecompressor) Reset(r io.Reader) error {
+	all, err := io.ReadAll(r)
+	d.pos, d.bad, d.data = 0, false, nil
+	if err != nil || len(all) == 0 {
+		d.bad = true
+		return nil
+	}
+	sum := byte(0)
+	for _, b := range all[:len(all)-1] {
+		sum ^= b
+	}
+	d.data, d.bad = all[:len(all)-1], sum != all[len(all)-1]
+	return nil
+}
+
+type sealedCompressor struct {
+	w   io.Writer
+	buf bytes.Buffer
+}
+
+func (c *sealedCompressor) Write(p []byte) (int, error) { return c.buf.Write(p) }
+func (c *sealedCompressor) Close() error {
+	sum := byte(0)
+	for _, b := range c.buf.Bytes() {
+		sum ^= b
+	}
+	_, err := c.w.Write(append(append([]byte{}, c.buf.Bytes()...), sum))
+	return err
+}
+func (c *sealedCompressor) Reset(w io.Writer) { c.w = w; c.buf.Reset() }
+
+// sealedProbe (oracle only): a compressed payload the handler's decompressor rejects - also one
+// that rejects it only when it is closed - is an undecodable payload: user code does not get the
+// message and the peer does not get success; the intact payload next to it is served.
+func sealedProbe(c *Ctx) {
+	payload := []byte{10, 20, 30, 40}
+	seal := func(corrupt bool) []byte {
+		sum := byte(0)
+		for _, b := range payload {
+			sum ^= b
+		}
+		if corrupt {
+			sum ^= 0x55
+		}
+		return append(append([]byte{}, payload...), sum)
+	}
+	for _, proto := range []string{"connect", "grpc", "grpcweb"} {
+		for _, kind := range []string{"unary", "client"} {
+			for _, corrupt := range []bool{false, true} {
+				var delivered [][]byte
+				// (responses stay uncompressed: the probe reads them without a "sealed" decoder)
+				opts := []connect.HandlerOption{connect.WithCodec(rawCodec{"raw"}), connect.WithCompressMinBytes(1 << 20), connect.WithCompression("sealed", func() connect.Decompressor { return &sealedDecompressor{} }, func() connect.Compressor { return &sealedCompressor{} })}
+				var h http.Handler
+				if kind == "unary" {
+					h = connect.NewUnaryHandler("/s/m", func(ctx context.Context, r *connect.Request[[]byte]) (*connect.Response[[]byte], error) {
+						delivered = append(delivered, append([]byte{}, (*r.Msg)...))
+						return connect.NewResponse(&[]byte{1}), nil
+					}, opts...)
+				} else {
+					h = connect.NewClientStreamHandler("/s/m", func(ctx context.Context, s *connect.ClientStream[[]byte]) (*connect.Response[[]byte], error) {
+						for s.Receive() {
+							delivered = append(delivered, append([]byte{}, (*s.Msg())...))
+						}
+						if s.Err() != nil {
+							return nil, s.Err()
+						}
+						return connect.NewResponse(&[]byte{1}), nil
+					}, opts...)
+				}
+				desc := fmt.Sprintf("%s %s request compressed with \"sealed\" (checksum verified at Close), corrupt=%v", proto, kind, corrupt)
+				c.Count("sealed-probe")
+				got := safely(func() string {
+					body := seal(corrupt)
+					if !(proto == "connect" && kind == "unary") {
+						body = frame(1, body)
+					}
+					req := httptest.NewRequest(http.MethodPost, "/s/m", bytes.NewReader(body))
+					req.ProtoMajor, req.ProtoMinor, req.Proto = 2, 0, "HTTP/2.0"
+					req.Header.Set("Content-Type", ctFor(proto, kind, "raw"))
+					encH, _ := encHeaderFor(proto, kind)
+					req.Header.Set(encH, "sealed")
+					rec := httptest.NewRecorder()
+					h.ServeHTTP(rec, req)
+					code, _ := responseErrorCode(proto, kind, rec)
+					return fmt.Sprintf("delivered=%d code=%d", len(delivered), code)
+				})
+				if !corrupt && got != "delivered=1 code=0" {
+					c.Fail("req-message-altered", desc, got, "an intact compressed message was not served")
+				}
+				if corrupt && (strings.HasPrefix(got, "delivered=1") || strings.HasSuffix(got, "code=0")) {
+					c.Fail("req-bad-message-delivered", desc, got, "a payload the decompressor rejects reached user code or was answered with success")
+				}
+			}
+		}
+	}
+}
+
 func streamReq(c *Ctx) {
 	if replayOp != "" {
 		hreqOp(c, replayOp)
 		return
 	}
+	sealedProbe(c)
 	r := c.Rng
 	protos := []string{"connect", "grpc", "grpcweb"}
 	kinds := []string{"client", "bidi", "unary"}
